@@ -582,7 +582,7 @@ static void gen_response_ops(Case &c, int tier, bool hostile) {
   int64_t maxbody = tier ? 300000 : 70000;
   int64_t bl = *rc::gen::weightedOneOf<int64_t>({{2, rc::gen::just<int64_t>(0)}, {5, range<int64_t>(1, 100)}, {3, range<int64_t>(100, 5000)},
                                                  {2, rc::gen::elementOf(std::vector<int64_t>{4094, 4095, 4096, 4097, 4098, 8192})}, {1, range<int64_t>(5000, maxbody)}});
-  if (tier && *range<int>(0, 40) == 0) bl = *range<int64_t>((1 << 20) - 10, (1 << 20) + 200000);
+  if (*range<int>(0, tier ? 40 : 90) == 0) bl = *range<int64_t>((1 << 20) - 10, (1 << 20) + 200000);  // above the 1 MiB wait cap
   c.push_back(Op("b", {bl, *rc::gen::arbitrary<int>()}));
   if (framing == 1) {
     int nch = *rc::gen::weightedOneOf<int>({{2, rc::gen::just(1)}, {5, range<int>(2, 8)}, {1, range<int>(9, 30)}});
